@@ -142,6 +142,7 @@ mpn_mul (mp_ptr prodp,
   if (ABOVE_THRESHOLD (un + vn, 2*MUL_FFT_FULL_THRESHOLD)
       && ABOVE_THRESHOLD (3*vn, MUL_FFT_FULL_THRESHOLD))
     {
+      VERIF_EV ("mul.fft", un, vn, 0, 0);
       mpn_mul_fft_main (prodp, up, un, vp, vn);
       return prodp[un + vn - 1];
     }
@@ -154,6 +155,7 @@ mpn_mul (mp_ptr prodp,
   if ((ABOVE_THRESHOLD (un + vn, 2*MUL_TOOM8H_THRESHOLD)) && (vn>=86) && (4*un <= 13*vn))
 #endif
   {
+      VERIF_EV ("mul.toom8h", un, vn, 0, 0);
       mpn_toom8h_mul(prodp, up, un, vp, vn);
       return prodp[un + vn - 1];
   }
@@ -162,6 +164,7 @@ mpn_mul (mp_ptr prodp,
   {
           if (vn > 3*k)
           {
+             VERIF_EV ("mul.toom4", un, vn, 0, 0);
              mpn_toom4_mul(prodp, up, un, vp, vn);
              return prodp[un + vn - 1];
           } else
@@ -171,6 +174,7 @@ mpn_mul (mp_ptr prodp,
                  || ((vn > 2*l) && (un+vn > 6*MUL_TOOM4_THRESHOLD)))
                  && (vn <= 3*l))
              {
+                VERIF_EV ("mul.toom53", un, vn, 0, 0);
                 mpn_toom53_mul(prodp, up, un, vp, vn);
                 return prodp[un + vn - 1];
              }
@@ -186,6 +190,7 @@ mpn_mul (mp_ptr prodp,
           if (vn < 2*k) // un/2 >= vn > un/4
           {
                   ws = TMP_ALLOC_LIMBS (MPN_TOOM3_MUL_TSIZE(un));
+                  VERIF_EV ("mul.toom42", un, vn, 0, 0);
                   mpn_toom42_mul(prodp, up, un, vp, vn, ws);
                   TMP_FREE;
                   return prodp[un + vn - 1];
@@ -195,12 +200,14 @@ mpn_mul (mp_ptr prodp,
           if (vn > 2*l) // un >= vn > 2un/3
           {
                   ws = TMP_ALLOC_LIMBS (MPN_TOOM3_MUL_TSIZE(un));
+                  VERIF_EV ("mul.toom3", un, vn, 0, 0);
                   mpn_toom3_mul(prodp, up, un, vp, vn, ws);
                   TMP_FREE;
                   return prodp[un + vn - 1];
           } else // 2un/3 >= vn > un/3
           {
                   ws = TMP_ALLOC_LIMBS (MPN_TOOM3_MUL_TSIZE(un));
+                  VERIF_EV ("mul.toom32", un, vn, 0, 0);
                   mpn_toom32_mul(prodp, up, un, vp, vn, ws);
                   TMP_FREE;
                   return prodp[un + vn - 1];
